@@ -14,7 +14,7 @@ use serde_json::json;
 
 fn c02_cfg(tier: Tier) -> ProgCfg {
     ProgCfg {
-        mix: OpMix { write: 1, ..OpMix::NONE },
+        mix: OpMix { write: 8, two_writers: 1, ..OpMix::NONE },
         wmix: WriteMix { bad_decls: false, meta: true, by_hash: true, rich_matching: false, interfere: false },
         sizes: SizeMix::Boundary,
         keys: (1, 3),
@@ -236,7 +236,7 @@ pub fn c02() -> ProgEngine {
 
 fn c08_cfg(tier: Tier) -> ProgCfg {
     ProgCfg {
-        mix: OpMix { write: 10, remove: 2, ..OpMix::NONE },
+        mix: OpMix { write: 10, remove: 2, two_writers: 2, ..OpMix::NONE },
         wmix: WriteMix { bad_decls: true, meta: true, by_hash: true, rich_matching: false, interfere: false },
         sizes: SizeMix::Boundary,
         keys: (1, 3),
@@ -590,7 +590,7 @@ pub fn c11() -> ProgEngine {
 
 fn c16_cfg(tier: Tier) -> ProgCfg {
     ProgCfg {
-        mix: OpMix { write: 16, read: 2, read_hash: 2, damage_content: 2, remove: 1, link_to: 3, ..OpMix::NONE },
+        mix: OpMix { write: 16, read: 2, read_hash: 2, damage_content: 2, remove: 1, link_to: 3, two_writers: 2, ..OpMix::NONE },
         wmix: WriteMix { bad_decls: true, meta: false, by_hash: true, rich_matching: false, interfere: false },
         sizes: SizeMix::Small,
         keys: (2, 5),
